@@ -32,16 +32,28 @@ class C03(T.SeqCases, S.SchedCheck):
                    "IEEE-754 doubles satisfy LawfulTyme (a+0=a, <= reflexive/transitive/total, 0<=t -> a<=a+t, a<=b -> a+t<=b+t) on the finite non-NaN values used; no Lean instance is declared",
                    "DoDoers with tock > 0 and their members are outside the quantifier of C03: only order/once-per-cycle/tyme clauses are checked for them"]
     rule = ("op-free fault-free programs: own profiles flat/nested/hetero/f46/g04 (scripts positive* asap*, asap-then-positive, mixed; None and 0.0; tocks incl. 0.1 0.3 1/3 0.7; "
-            "starts incl. 0.3 100.1 7/3; limits incl. non-multiples and negative; random regroupings under tock-0 DoDoers incl. empty and nested) + profiles time/plain of the family; 18% op-carrying programs of the family (profiles ops/mixed: extend/remove by running doers) judged on the once-per-cycle and enter-order clauses; waiter doers (read a sibling's .done) in 40% of the flat/nested/g04 programs; 6% degenerate programs (no doers, all done at enter, DoDoers without kids: the deque is empty when the first cycle runs); ~40% of the cases reach the same program through a history or another entry point (schedt.run_var: seq, same Doist twice, faulted first run, pre-wound, ints, iterator, doers at init, __call__, hand-driven enter/recur/exit, DoDoer opts); formerly: 30% of the cases are SECOND runs: the same doer objects were first run under another Doist (other start tyme, cut by a limit) and are then run under a fresh one. "
+            "starts incl. 0.3 100.1 7/3; limits incl. non-multiples and negative; random regroupings under tock-0 DoDoers incl. empty and nested) + profiles time/plain of the family; 7% small worlds of own doers whose FIRST doer re-sets the scheduler's tock / fast-forwards its tyme in mid cycle, judged against a simulation of the cycle model that reads tyme and tock when used (oracle only); 18% op-carrying programs of the family (profiles ops/mixed: extend/remove by running doers) judged on the once-per-cycle and enter-order clauses; waiter doers (read a sibling's .done) in 40% of the flat/nested/g04 programs; 6% degenerate programs (no doers, all done at enter, DoDoers without kids: the deque is empty when the first cycle runs); ~40% of the cases reach the same program through a history or another entry point (schedt.run_var: seq, same Doist twice, faulted first run, pre-wound, ints, iterator, doers at init, __call__, hand-driven enter/recur/exit, DoDoer opts); formerly: 30% of the cases are SECOND runs: the same doer objects were first run under another Doist (other start tyme, cut by a limit) and are then run under a fresh one. "
             "non-trivial = >= 10 recur events and some doer yields a positive tock; distinct by request line")
 
     def corpus(self):
         # S.CORPUS[3] = pre-finding F03 (extend in mid cycle): exhibits known finding C03-K2 on every run
-        return list(T.DEGENERATE_CORPUS) + list(T.TIMING_CORPUS) + list(T.WAITER_CORPUS) + [S.CORPUS[3], S.CORPUS[1], S.CORPUS[9]] \
+        return [("dyn", tuple(sorted(g.items()))) for g in self.DYN_CORPUS] \
+            + list(T.DEGENERATE_CORPUS) + list(T.TIMING_CORPUS) + list(T.WAITER_CORPUS) + [S.CORPUS[3], S.CORPUS[1], S.CORPUS[9]] \
             + self.seq_corpus(T.TIMING_CORPUS + T.DEGENERATE_CORPUS[:3] + T.WAITER_CORPUS)
 
     def request(self, case):
+        if case[0] == "dyn":
+            return ("unmodelled",)
         return S.request(self.base(case))
+
+    DYN_CORPUS = (
+        dict(tock=1.0, start=0.0, limit=8.0, pool=[], doers=[(1, "fn", [0.0] * 6), (2, "bound", [0.0] * 6), (3, "doer", [2.0, 0.0, 0.0])],
+             ops=[(1, 2, ("settock", 0.25))]),                     # the first doer lowers the scheduler's tock in mid cycle
+        dict(tock=0.5, start=1.0, limit=6.0, pool=[], doers=[(1, "doer", [0.0] * 5), (2, "fn", [0.0] * 5), (3, "fn", [1.0, 0.0])],
+             ops=[(1, 2, ("settyme", 2.0))]),                      # ... fast-forwards its tyme
+        dict(tock=0.25, start=0.0, limit=4.0, pool=[], doers=[(1, "fn", [None] * 8), (2, "doizebound", [0.5, 0.0, 0.0])],
+             ops=[(1, 1, ("settock", 1.0)), (1, 3, ("settock", 0.1))]),
+    )
 
     def exhaustive(self, tier):
         if tier != "thorough":
@@ -63,6 +75,9 @@ class C03(T.SeqCases, S.SchedCheck):
         def plain():
             for _ in range(n):
                 k = rng.random()
+                if rng.random() < 0.07:
+                    yield ("dyn", T.gen_world(rng, "dyn"))
+                    continue
                 if k < 0.06:
                     yield T.gen_degenerate(rng)
                 elif k < 0.16:
@@ -81,12 +96,16 @@ class C03(T.SeqCases, S.SchedCheck):
 
     def run_impl(self, case):
         T.settle_heap()
+        if case[0] == "dyn":
+            return T.WorldObs(T.run_world(case[1]))
         with T.waiters():
             if case[0] in ("seq", "var"):
                 return T.TObs(T.run_var(case[2], self.variant(case)))
             return T.TObs(S.run_program(case))
 
     def nontrivial(self, case, obs):
+        if case[0] == "dyn":
+            return len(obs.d["trace"]) >= 10
         case = self.base(case)
         d = obs.d
         pos = any(isinstance(o, tuple) and o[0] == "yield" and o[1] for s, _, _ in S.all_specs(case) if s[0] == "leaf" for _, o in s[4])
@@ -107,9 +126,13 @@ class C03(T.SeqCases, S.SchedCheck):
         return f
 
     def oracle(self, case, obs):
+        if case[0] == "dyn":
+            return T.c03_dyn_clauses(case[1], obs.a)
         return T.c03_analyse(self.base(case), obs.d)[0]
 
     def known(self, case, obs, clauses):
+        if case[0] == "dyn":
+            return None
         case = self.base(case)
         # C03-K2 (pre-finding F03, = C02-K1 seen from C03): a doer extended in mid cycle is queued BEFORE its extender, so later cycles
         # run it ahead of doers that were entered earlier.  Only the order clause, and in every inverted pair the doer that runs too
